@@ -38,7 +38,16 @@ pub fn shapes(rng: &mut Rng, thorough: bool) -> Vec<Shape> {
     v.push(Shape { hash: "shake256_192", levels: vec![(2, 5), (3, 1)] });
     v.push(Shape { hash: "shake256_128", levels: vec![(3, 1), (3, 1), (3, 1), (3, 1), (3, 1), (3, 1), (3, 1), (3, 1)] });
     v.push(Shape { hash: "sha256_128", levels: vec![(3, 1); 8] });
+    // the longest signatures: eight levels of W1 with a 32-byte hash (more than 65535 bytes)
+    v.push(Shape { hash: "sha256_256", levels: vec![(1, 1); 8] });
+    v.push(Shape { hash: "sha256_256", levels: vec![(1, 1), (1, 1), (1, 1), (1, 1), (1, 1), (1, 1), (1, 1), (2, 1)] });
+    // real heights beyond what the model can re-compute in minutes: implementation-only
+    // (sign at leaf indices around the byte boundaries, then the library's own verifiers)
+    v.push(Shape { hash: "sha256_192", levels: vec![(3, 6)] });
+    v.push(Shape { hash: "shake256_128", levels: vec![(3, 1), (3, 6)] });
     if thorough {
+        v.push(Shape { hash: "sha256_128", levels: vec![(4, 7)] });
+        v.push(Shape { hash: "sha256_256", levels: vec![(3, 6), (3, 6)] });
         for h in sha {
             v.push(Shape { hash: h, levels: vec![(3, 5)] });
             v.push(Shape { hash: h, levels: vec![(2, 5), (1, 5)] });
@@ -67,6 +76,11 @@ pub fn counters(shape: &Shape, rng: &mut Rng, k: usize) -> Vec<u64> {
             cs.push(1 << acc); // first leaf of the fresh subtree
         }
     }
+    for b in [255u64, 256, 257, 511, 512, 767, 1023, 1024, 65535, 65536] {
+        if b <= last {
+            cs.push(b);
+        }
+    }
     for _ in 0..k {
         cs.push(rng.below(last + 1));
     }
@@ -90,7 +104,7 @@ pub fn emit_keygen(shape: &Shape, seed: &[u8]) -> Option<(Vec<u8>, Vec<u8>)> {
         }
     }
     l.raw("cost", &format!("{:.2}", shape.keygen_cost()));
-    if !is_sha(shape.hash) {
+    if !is_sha(shape.hash) || shape.heights().iter().any(|h| *h > 5) {
         l.raw("nomodel", "true");
     }
     l.emit();
@@ -105,7 +119,7 @@ pub fn emit_sign(shape: &Shape, blob: &[u8], msg: &[u8], accept: bool) -> Option
     let mut l = Line::new("sign");
     l.str("hash", shape.hash).hex("blob", blob).hex("msg", msg).raw("accept", if accept { "true" } else { "false" })
         .out_bytes("sig", &out).raw("calls", &calls_json(&calls)).raw("cost", &format!("{:.2}", shape.sign_cost()));
-    if !is_sha(shape.hash) {
+    if !is_sha(shape.hash) || shape.heights().iter().any(|h| *h > 5) {
         l.raw("nomodel", "true");
     }
     l.emit();
@@ -147,7 +161,12 @@ pub fn run(seed: u64, thorough: bool) {
         // budget: keep the expensive shapes to a few counters in the quick tier
         let budget = if thorough { 40.0 } else { 12.0 };
         let maxn = ((budget / shape.sign_cost().max(0.05)) as usize).clamp(3, if thorough { 64 } else { 10 });
-        if cs.len() > maxn {
+        let tall = shape.heights().iter().any(|h| *h > 5);
+        if tall && !thorough {
+            let last = *cs.last().unwrap();
+            cs = vec![0, 255, 256, 512, last];
+        }
+        if cs.len() > maxn && !tall {
             // keep first, roll-over points and last
             let keep: Vec<u64> = cs.iter().cloned().step_by((cs.len() + maxn - 1) / maxn).collect();
             let last = *cs.last().unwrap();
@@ -160,7 +179,8 @@ pub fn run(seed: u64, thorough: bool) {
             let blob = set_counter(&sk, *c);
             let msg = &msgs[(i + shape.levels.len()) % msgs.len()];
             if let Some(sig) = emit_sign(&shape, &blob, msg, true) {
-                let v = emit_verify(shape.hash, msg, &sig, &pk, shape.sign_cost() / 20.0, "valid");
+                let tall = shape.heights().iter().any(|h| *h > 5);
+                let v = if tall { verify3(shape.hash, msg, &sig, &pk) } else { emit_verify(shape.hash, msg, &sig, &pk, shape.sign_cost() / 20.0, "valid") };
                 let ok = v.iter().all(|x| *x == Out::Ok(()));
                 Line::new("oracle").str("name", "verify_after_sign").raw("ok", if ok { "true" } else { "false" })
                     .str("hash", shape.hash).raw("variants", &shape.variants_json()).str("c", &c.to_string())
